@@ -56,6 +56,29 @@ def tab_equal(term, var, fn, lo=0, hi=65535):
     return None
 
 
+def typed_tab(T, N, raw, var_term, var_ty, fn, lo=0, hi=65535):
+    """like tab_equal, but on the raw def-use expression with Rust integer semantics (types, wrap-on-cast, overflow detection) when the expression is pure
+    integer arithmetic; None = equal everywhere, str = first difference / overflow, 'float' = not an integer expression (caller falls back to the float tabulation)"""
+    vars_ = []
+    def walk(x):
+        if isinstance(x, tuple) and x and isinstance(x[0], str):
+            if x[0] != 'cast' and N.n(x) == var_term: vars_.append(x); return
+            for y in x[1:]:
+                if isinstance(y, tuple): walk(y)
+    walk(raw)
+    if not vars_: return 'does not depend on the dimension'
+    try:
+        for w in range(lo, hi + 1):
+            env = {v: (w, var_ty) for v in vars_}
+            got, _ = c11.eval_int(raw, env)
+            if got != fn(w): return 'at %d: %s, expected %s' % (w, got, fn(w))
+    except c11.Overflow as e:
+        return 'at %d: %s' % (w, e)
+    except Unanalysable:
+        return 'float'
+    return None
+
+
 def rule_d(ck, F):
     ck.rule('D', 'macroblock body: block k of macroblock n (origin ((n mod mbpl)*16, (n div mbpl)*16), mbpl = ceil(w/16)) is decoded with CBP entry k and dequantised into the '
                  'level array of its plane at origin + (8(k&1), 8(k>>1)) [chroma: origin/2] with the same blocks-per-line that idct_channel later uses with that array, that '
@@ -70,7 +93,9 @@ def rule_d(ck, F):
         ck.violation('D', 'D : decode_next_picture : call counts', where_of(b), 'expected 6 decode_block, 6 inverse_rle and 3 idct_channel calls, found %d, %d, %d' % (len(db), len(rle), len(idct))); return
     # mbpl / mbh as functions of the width / height
     mbpl = rle[4][2][3]                       # chroma blocks per line = macroblocks per line
-    msg = tab_equal(mbpl, W, lambda x: (x + 15) // 16) if find(mbpl, lambda z: z == W) else 'does not depend on the width'
+    raw_mbpl = T.ex(rle[4][1]['args'][3])
+    msg = typed_tab(T, N, raw_mbpl, W, 'u16', lambda x: (x + 15) // 16)
+    if msg == 'float': msg = tab_equal(mbpl, W, lambda x: (x + 15) // 16) if find(mbpl, lambda z: z == W) else 'does not depend on the width'
     if msg is None: ck.ok('D', 'mb_per_line = %s = ceil(w/16) for every w in 0..=65535 (tabulated)' % show(mbpl), where_of(b))
     else: ck.violation('D', 'D : decode_next_picture : mb_per_line', where_of(b), 'macroblocks per line %s is not ceil(w/16): %s' % (show(mbpl), msg)); return
     n = ('f', 'len', ('v', 'macroblock_types'))
@@ -130,7 +155,21 @@ def rule_d(ck, F):
     for nm, t in allocs.items():
         hs = [x for x in (t[1:] if t[0] == '*' else ()) if find(x, lambda z: z == H)]
         if hs: mbh = hs[0]
-    msg = tab_equal(mbh, H, lambda x: (x + 15) // 16) if mbh is not None else 'no height factor'
+    msg = 'no height factor'
+    if mbh is not None:
+        raw_h = None
+        for bb, t in g.calls():
+            if F.callee_name(t).endswith('from_elem') and show(N.n(T.ex(t['args'][0]))) == 'Zero()':
+                def find_raw(x):
+                    if isinstance(x, tuple) and x and isinstance(x[0], str):
+                        if N.n(x) == mbh: return x
+                        for y in x[1:]:
+                            r = find_raw(y) if isinstance(y, tuple) else None
+                            if r is not None: return r
+                    return None
+                raw_h = raw_h or find_raw(T.ex(t['args'][1]))
+        msg = typed_tab(T, N, raw_h, H, 'u16', lambda x: (x + 15) // 16) if raw_h is not None else 'float'
+        if msg == 'float': msg = tab_equal(mbh, H, lambda x: (x + 15) // 16)
     sizes = {'luma_levels': mk_mul([mbpl, mbh, ('c', 4)]) if mbh else None, 'chroma_b_levels': mk_mul([mbpl, mbh]) if mbh else None, 'chroma_r_levels': mk_mul([mbpl, mbh]) if mbh else None}
     if msg is None and all(allocs.get(k) == v for k, v in sizes.items()):
         ck.ok('D', 'level arrays: luma 4*mbpl*mbh, chroma mbpl*mbh blocks, mbh = %s = ceil(h/16) (tabulated)' % show(mbh), where_of(b))
